@@ -116,6 +116,17 @@ def gen_case(rng, *, max_n=8, p_fail=0.15, runner='l1', allow_dups=True, ntypes=
         t = rng.choice(req)[0]
         req.insert(rng.randint(0, len(req)), [t, rng.choice([0, 1])])
     storage = 'none' if rng.random() < 0.15 else 'local'
+    if storage == 'none' and allow_dups and rng.random() < 0.6:
+        # an equal instance spelt differently (0 / 0.0 / False, dict entries in another insertion order): == and hash agree,
+        # the cache key does not, so this is only generated for Labs without storage
+        t = rng.choice(req)[0]
+        top = specs[t]
+        if not any(x[0] == 'scalar' for x in (top[1] if top[0] != 'dict' else [v for _, v in top[1]])):
+            if top[0] == 'dict':
+                top[1].append(['kS', ['scalar', 0]])
+            else:
+                top[1].append(['scalar', 0])
+        req.insert(rng.randint(0, len(req)), [t, 3])
     case = dict(n=n, types=types, specs=specs, reads=reads, behs=behs, req=req, storage=storage,
                 bust=rng.random() < 0.15, cont=rng.random() < 0.7, runner=runner,
                 max_workers=rng.choice([1, 2, 3, None]), sched_seed=rng.randrange(1 << 30), pre=[])
@@ -179,6 +190,15 @@ def py_needed(case):
 
 # ------------------------------------------------------------------ building the objects
 
+class TidMap(dict):
+    """task object -> task id.  == / hash of task objects belong to the code under test and may be broken there: an object
+    the dict does not find is identified by the label the universe gives every task."""
+
+    def __missing__(self, key):
+        lab = getattr(key, 'label', None)
+        return lab if isinstance(lab, int) and not isinstance(lab, bool) else 9999
+
+
 class Built:
     def __init__(self, case):
         self.case = case
@@ -187,7 +207,7 @@ class Built:
         for t in range(case['n']):
             self.canon.append(self._make(t, self._struct(case['specs'][t])))
         self.req = [self.canon[t] if mode == 0 else self._fresh(t, mode) for t, mode in case['req']]
-        self.tid_of = {obj: t for t, obj in enumerate(self.canon)}
+        self.tid_of = TidMap({obj: t for t, obj in enumerate(self.canon)})
 
     def _make(self, t, deps):
         case = self.case
@@ -199,9 +219,10 @@ class Built:
     def _fresh(self, t, mode):
         if mode == 1:
             return self._make(t, self.canon[t].deps)
-        return self._make(t, self._struct(self.case['specs'][t], fresh_children=True))
+        return self._make(t, self._struct(self.case['specs'][t], fresh_children=True, respell=(mode == 3)))
 
-    def _struct(self, spec, fresh_children=False):
+
+    def _struct(self, spec, fresh_children=False, respell=False):
         k = spec[0]
         if k == 'task':
             _, d, mode = spec
@@ -209,10 +230,16 @@ class Built:
                 return self._fresh(d, 1)
             return self.canon[d] if mode == 0 else self._fresh(d, mode)
         if k == 'scalar':
-            return spec[1]
+            v = spec[1]
+            if respell and isinstance(v, (bool, int)):
+                return 0.0 if (v is False or (v == 0 and not isinstance(v, bool))) else (1 if v is True else v)
+            return v
         if k == 'dict':
-            return {key: self._struct(x, fresh_children) for key, x in spec[1]}
-        items = [self._struct(x, fresh_children) for x in spec[1]]
+            entries = list(spec[1])
+            if respell:       # scalar-valued entries first: the order of the tasks inside (what run() reads) is unchanged
+                entries = [e for e in entries if e[1][0] == 'scalar'] + [e for e in entries if e[1][0] != 'scalar']
+            return {key: self._struct(x, fresh_children, respell) for key, x in entries}
+        items = [self._struct(x, fresh_children, respell) for x in spec[1]]
         return items if k == 'list' else tuple(items)
 
 
@@ -514,6 +541,16 @@ def run_case(case, workdir=None, backend_factory=None, catch_ki=False, around_ru
         except BaseException:   # noqa
             unloadable.append(t)
     obs['unloadable'] = unloadable
+    # after the call nothing may still be readable through the task objects (a runner that hands tasks private copies of
+    # results keeps them alive however empty its own map is)
+    readable = []
+    for o in built.all_objects:
+        try:
+            o.result
+            readable.append(built.tid_of.get(o, -1))
+        except BaseException:   # noqa
+            pass
+    obs['readable_after'] = sorted(set(readable))
     # result_meta marks on every instance reachable from the requested objects through executed tasks
     finished_ok = {e[1] for e in rec.ev if e[0] == 'finish' and e[2] is not None}
     loaded = {e[1] for e in rec.ev if e[0] == 'submit' and e[2]}
